@@ -53,6 +53,7 @@ static lzma_ret feed(fcase *c, vrng *r, size_t n, lzma_action action, bool tiny_
 		size_t ai = left;
 		if (action == LZMA_RUN && left > 1 && vrng_chance(r, 1, 2)) ai = 1 + (size_t)vrng_below64(r, left);
 		size_t ao = tiny_out ? 1 + vrng_below(r, 3) : 1 + vrng_logsize(r, 100000);
+		if (ai > vh_window_max()) ai = vh_window_max();
 		lzma_action a = action;
 		if (action != LZMA_RUN && ai < left) a = LZMA_RUN;   // the flush action goes with the last piece
 		uint8_t *ip = vh_in_window(c->in.p + c->fed, ai);
